@@ -106,12 +106,21 @@ func CalculateMultipliedPriceToTick(multipliedPrice math.LegacyDec, tickParams T
 	tickIndex = 0
 	if multipliedPrice.GT(multipliedOffsetPrice) {
 		for multipliedPrice.GT(multipliedOffsetPrice) {
-			multipliedPrice = multipliedPrice.Quo(priceRatio)
+			next := multipliedPrice.Quo(priceRatio)
+			// a step that does not move the price at 18 decimals would be repeated for ever
+			if !next.LT(multipliedPrice) {
+				return 0, ErrPriceOutOfBound
+			}
+			multipliedPrice = next
 			tickIndex++
 		}
 	} else {
 		for multipliedPrice.LT(multipliedOffsetPrice) {
-			multipliedPrice = multipliedPrice.Mul(priceRatio)
+			next := multipliedPrice.Mul(priceRatio)
+			if !next.GT(multipliedPrice) {
+				return 0, ErrPriceOutOfBound
+			}
+			multipliedPrice = next
 			tickIndex--
 		}
 	}
